@@ -86,15 +86,19 @@ Theorem C08_reopen_equiv_refuted_gc :
 Proof. exact refuted_gc_not_saved. Qed.
 Print Assumptions C08_reopen_equiv_refuted_gc.
 
-(* The code as found: gcIndex drops the digest reference of kept child manifests. *)
-Theorem C08_reopen_equiv_refuted_gc_digest_ref :
-  exists (N : nat) (mf : nat -> bool) (succs : nat -> list nat) (subj : nat -> option nat)
-         (sk dflt : nat -> bool) (cfg : config) (h : list (op * orders)),
-    autosave cfg = true /\ wf_history mf h /\ (forall k, mf k = false -> succs k = []) /\
-    let s := run N mf succs subj sk (fun _ => false) true false true true true cfg h store_empty in
-    obs_preds N succs (reopen N mf succs s) 0 <> obs_preds N succs s 0.
-Proof. exact refuted_gc_drops_digest_ref. Qed.
-Print Assumptions C08_reopen_equiv_refuted_gc_digest_ref.
+(* gcIndex as found (fixA = false) drops the digest reference of kept child manifests: Resolve
+   by digest degrades across GC.  Its former consequence for reopening (Delete of the parent
+   orphaned the child for a reloaded store) is gone on the final tree because Delete now gives a
+   manifest that loses its last predecessor a digest reference; the main theorems are about
+   fixA = true, which is the code. *)
+Theorem C08_gc_digest_ref_effect :
+  let h := ex_plain_hist [OPush 1; OPush 2; OTag (plain 2) (RTag 0); OGC] in
+  let run' := fun fixA => run 3 ex_mf ex_succs (fun _ => None) (fun _ => true) (fun _ => false)
+                              true fixA true true true ex_cfg h store_empty in
+  obs_resolve_dig (fun _ => false) (run' false) 1 = DBlob 1 /\
+  obs_resolve_dig (fun _ => false) (run' true) 1 = DPlain 1.
+Proof. exact gc_digest_ref_effect. Qed.
+Print Assumptions C08_gc_digest_ref_effect.
 
 (* The referrer pass of gcIndex as found (F1, owned by C09) never returns on an untagged
    manifest whose subject is not in the rebuilt graph; the repaired pass collects it. *)
